@@ -363,3 +363,164 @@ Proof.
   split; vm_compute; reflexivity.
 Qed.
 Print Assumptions closure_refuted_with_conflict.
+
+(* ================================================================================================
+   The setup model run from table TEXTS (Model/SetupText.v): the table-file parser model of C11
+   (table_actions: Table._read after _rewrite, then Table.actions) followed by what lies between the parser
+   and Eups.setup - the implicit product line that Product.getTable appends, Table.expandEupsVariables on
+   every argument (PRODUCTS, one spelling of PRODUCT_DIR / PRODUCT_DIR_EXTRA, the spelled-out NAME_DIR,
+   PRODUCT_FLAVOR, PRODUCT_NAME, PRODUCT_VERSION, UPS_DIR), the command kinds of Action.execute and the option
+   words of Action.processArgs.  [world_of_text cfg tc tw] is the world of Model/Setup.v that the stack with the
+   table files tw denotes (Err when a table does not parse or uses a construct Model/Setup.v has not);
+   request_text / setup_text run Model/Setup.v on it.  The correspondence check feeds the generated table texts
+   to this model and compares environments and aliases with the real run (text-model-comparisons), so the
+   theorems of this file, of Props/C02.v and of Props/C04.v speak about stacks given by their table files.
+   ================================================================================================ *)
+From Eupsv Require Import Model.Rx Model.Cond Model.Args Model.Blocks Model.TableSpec Model.SetupText
+     Proofs.SetupText Proofs.SetupTextExample.
+
+(* (a) For a table printed from a well-formed syntax tree of the documented grammar (Model/TableSpec.v: every
+   layout, letter case, quoting style, comment), the actions setup executes are the meaning of the tree: for each
+   command that applies (unconditional ones in place, the first true branch of each chain - by C11's blocks_sound)
+   the action its KIND means (kind_action: no command names, no flags) on its arguments after
+   expandEupsVariables, followed by the implicit product line. *)
+Theorem text_table_denotes tc pi flavor is :
+  wf_flavor flavor = true -> wf_items is = true ->
+  table_setup_actions tc pi flavor (print_table is) = items_setup_actions tc pi flavor is.
+Proof. apply table_setup_actions_print. Qed.
+Print Assumptions text_table_denotes.
+
+(* ... hence the world the setup theorems quantify over is the one the texts denote *)
+Theorem text_world_denotes cfg tc aw :
+  wf_ast_world cfg aw = true -> world_of_text cfg tc (print_world aw) = world_of_ast cfg tc aw.
+Proof. apply world_of_text_print. Qed.
+Print Assumptions text_world_denotes.
+
+(* the translated world declares exactly the products of the text world, with their directories *)
+Theorem text_world_declares cfg tc tw w :
+  world_of_text cfg tc tw = Ok w ->
+  map p_name w = map t_name tw /\ map p_version w = map t_version tw /\ map p_dir w = map t_dir tw.
+Proof. apply world_of_text_names. Qed.
+Print Assumptions text_world_declares.
+
+(* the synonyms: pathPrepend / pathAppend / setenv / pathSet mean what envPrepend / envAppend / envSet mean,
+   append and prepend, required and optional are told apart *)
+Theorem text_command_kinds args v x n j :
+  kind_action KPathPrepend args = kind_action KEnvPrepend args /\
+  kind_action KPathAppend args = kind_action KEnvAppend args /\
+  kind_action KSetenv args = kind_action KEnvSet args /\ kind_action KPathSet args = kind_action KEnvSet args /\
+  kind_action KEnvPrepend [v; x] = Ok (APath false v x ":"%char) /\
+  kind_action KEnvAppend [v; x] = Ok (APath true v x ":"%char) /\
+  kind_action KEnvSet [v; x] = Ok (ASet v x) /\
+  (dep_args [n] = Ok (mkDep [n] false false false false) ->
+     kind_action KSetupRequired [n] = Ok (ASetup false n false) \/ is1 n "eups" = true) /\
+  (dep_args [n; j] = Ok (mkDep [n] true false false false) ->
+     kind_action KSetupOptional [n; j] = Ok (ASetup true n true) \/ is1 n "eups" = true).
+Proof.
+  repeat split; try reflexivity.
+  - intro E. cbn [kind_action]. unfold dep_action. rewrite E. cbn [bind d_dir d_words d_noaction d_external d_just orb].
+    destruct (is1 n "eups"); [now right|now left].
+  - intro E. cbn [kind_action]. unfold dep_action. rewrite E. cbn [bind d_dir d_words d_noaction d_external d_just orb].
+    destruct (is1 n "eups"); [now right|now left].
+Qed.
+Print Assumptions text_command_kinds.
+
+(* (b) the setup theorems on worlds given as texts.  C01: every command on a stack whose table files parse maps
+   consistent environments to consistent environments *)
+Theorem request_text_preserves_inv cfg tc tw w dl rank fuel st ds name fwd just st' :
+  world_of_text cfg tc tw = Ok w ->
+  WF2 w dl rank -> nodollar_paths w (s_env st) -> Inv w (s_env st) ->
+  request_text cfg tc tw fuel st ds name fwd just = Ok (Some st') -> Inv w (s_env st').
+Proof.
+  intros Hw H Hnd HI E. rewrite (request_text_is_request cfg tc tw w fuel st ds name fwd just Hw) in E.
+  exact (request_preserves_inv w cfg dl rank fuel st ds name fwd just st' H Hnd HI E).
+Qed.
+Print Assumptions request_text_preserves_inv.
+
+(* C02: a request that does not succeed yields no new state *)
+Theorem failed_setup_text_changes_nothing cfg tc tw w fuel st ds name fwd just :
+  world_of_text cfg tc tw = Ok w ->
+  (forall st' ds', setup_text cfg tc tw fuel st ds name fwd 0 just <> Ok (RDone true st' ds')) ->
+  request_text cfg tc tw fuel st ds name fwd just = Ok None \/
+  exists e, request_text cfg tc tw fuel st ds name fwd just = Err e.
+Proof.
+  intros Hw H. rewrite (request_text_is_request cfg tc tw w fuel st ds name fwd just Hw).
+  unfold Setup.request. destruct (setup w cfg fuel st ds name fwd 0 just) as [[|] st' ds'|st' ds'| |] eqn:E.
+  - exfalso. apply (H st' ds'). rewrite (setup_text_is_setup cfg tc tw w fuel st ds name fwd 0 just Hw). now rewrite E.
+  - now left.
+  - now left.
+  - right. now exists OutOfFuel.
+  - right. now exists Crash.
+Qed.
+Print Assumptions failed_setup_text_changes_nothing.
+
+(* C04, the frame theorem: a call of setup on such a stack changes no variable that is neither a path variable nor
+   owned by a product it reaches, nothing about the path elements of products it does not reach, no alias that no
+   reached product defines *)
+Theorem setup_text_changes_only_what_it_reaches cfg tc tw w dl fuel st ds name fwd depth just :
+  world_of_text cfg tc tw = Ok w -> WF w dl -> nodollar_paths w (s_env st) -> depth_ok cfg depth ->
+  exists r, setup_text cfg tc tw fuel st ds name fwd depth just = Ok r /\
+            good w dl (touches w (levels cfg depth just) name) st r.
+Proof.
+  intros Hw H Hnd Hd. exists (setup w cfg fuel st ds name fwd depth just).
+  split; [exact (setup_text_is_setup cfg tc tw w fuel st ds name fwd depth just Hw)|].
+  exact (setup_frame w cfg dl H fuel st ds name fwd depth just Hnd Hd).
+Qed.
+Print Assumptions setup_text_changes_only_what_it_reaches.
+
+(* ---- the hypotheses are inhabited ----
+   ext_tw (Proofs/SetupTextExample.v): lib 1.0, lib 2.0 and app 1.0 given by the texts of their table files (a
+   dependency line, a block conditional on the setup type, envPrepend / pathAppend, envSet with a quoted value, an
+   alias, the product directory spelled PRODUCT_DIR and LIB_DIR).  The texts are what the syntax trees ex_aw print
+   to; they denote ext_world; WF2 holds for it; from the environment ext_st0 that  setup lib 2.0  reaches from the
+   empty one,  setup app  replaces lib 2.0 by lib 1.0 and ends in ext_final, which is consistent by
+   request_text_preserves_inv; a request for an unknown product yields nothing. *)
+Example c01_text_hypotheses_inhabited :
+  wf_ast_world ext_cfg ext_aw = true /\ print_world ext_aw = ext_tw /\
+  world_of_text ext_cfg ext_tc ext_tw = Ok ext_world /\ world_of_ast ext_cfg ext_tc ext_aw = Ok ext_world /\
+  WF2 ext_world (dl_of ext_world) (rank_of ext_order) /\
+  request_text ext_cfg ext_tc ext_tw 20 {| s_env := []; s_aliases := [] |} [Some (lit "2.0"); None] (lit "lib") true false
+    = Ok (Some ext_st0) /\
+  Inv ext_world (s_env ext_st0) /\ nodollar_paths ext_world (s_env ext_st0) /\
+  request_text ext_cfg ext_tc ext_tw 20 ext_st0 ext_ds (lit "app") true false = Ok (Some ext_final) /\
+  find_setup_product ext_world (s_env ext_final) (lit "lib") = find_pv ext_world (lit "lib") (lit "1.0") /\
+  Inv ext_world (s_env ext_final) /\
+  request_text ext_cfg ext_tc ext_tw 20 ext_st0 [None] (lit "ghost") true false = Ok None.
+Proof.
+  assert (W : world_of_text ext_cfg ext_tc ext_tw = Ok ext_world) by (vm_compute; reflexivity).
+  assert (H : WF2 ext_world (dl_of ext_world) (rank_of ext_order)) by (apply wf2_check_sound; vm_compute; reflexivity).
+  assert (R0 : setup ext_world ext_cfg 20 {| s_env := []; s_aliases := [] |} [Some (lit "2.0"); None] (lit "lib") true 0 false
+               = RDone true ext_st0 []) by (vm_compute; reflexivity).
+  destruct (setup_preserves_inv ext_world ext_cfg (dl_of ext_world) (rank_of ext_order) 20 {| s_env := []; s_aliases := [] |}
+              [Some (lit "2.0"); None] (lit "lib") true 0 false true ext_st0 []
+              H (nodollar_nil ext_world) I (Inv_nil ext_world) R0) as [I0 N0].
+  assert (R1 : request_text ext_cfg ext_tc ext_tw 20 ext_st0 ext_ds (lit "app") true false = Ok (Some ext_final))
+    by (vm_compute; reflexivity).
+  split; [vm_compute; reflexivity|]. split; [vm_compute; reflexivity|]. split; [exact W|].
+  split; [rewrite <- (text_world_denotes ext_cfg ext_tc ext_aw); [exact W|vm_compute; reflexivity]|].
+  split; [exact H|]. split; [vm_compute; reflexivity|]. split; [exact I0|]. split; [exact N0|]. split; [exact R1|].
+  split; [vm_compute; reflexivity|].
+  split; [exact (request_text_preserves_inv ext_cfg ext_tc ext_tw ext_world _ _ 20 ext_st0 ext_ds (lit "app") true false
+                   ext_final W H N0 I0 R1)|].
+  vm_compute. reflexivity.
+Qed.
+Print Assumptions c01_text_hypotheses_inhabited.
+
+(* ---- the flavor a table is read for ----
+   Eups.setup reads the table of a product found under the fall-back flavor for THAT flavor (setupFlavor =
+   product.flavor).  Before the repair proposed_fixes/C01-unsetup-reads-table-for-recorded-flavor the unsetup half
+   read it for the RUNNING flavor: for a table with a condition on the flavor the commands undone were not the
+   commands executed.  exf_tw: tool 1.0, declared under generic, adds its bin directory to PATH when the flavor is
+   generic.  setup tool  on Linux64 adds it (exf_st1); undoing with the tables as the code before the repair read them
+   leaves the element in PATH with tool no longer recorded - the environment is not consistent, and not the one
+   before the setup; with the repaired reading (the model) unsetup restores the environment. *)
+Theorem unsetup_flavor_refuted_pinned :
+  exists w wp residue,
+    world_of_text exf_cfg ext_tc exf_tw = Ok w /\ world_of_text_pinned_unsetup exf_cfg ext_tc exf_tw = Ok wp /\
+    request_text exf_cfg ext_tc exf_tw 20 exf_st0 [Some (lit "1.0"); None] (lit "tool") true false = Ok (Some exf_st1) /\
+    Setup.request wp exf_cfg 20 exf_st1 [] (lit "tool") false false = Ok (Some residue) /\
+    alookup (lit "PATH") (s_env residue) = Some (lit "/s/generic/tool/1.0/bin:/usr/bin") /\
+    find_setup_product w (s_env residue) (lit "tool") = None /\
+    request_text exf_cfg ext_tc exf_tw 20 exf_st1 [] (lit "tool") false false = Ok (Some exf_st0).
+Proof. do 3 eexists. repeat split; vm_compute; reflexivity. Qed.
+Print Assumptions unsetup_flavor_refuted_pinned.
